@@ -66,11 +66,23 @@ Lemma gen_walk_no_literals :
   flat_lits_ChildFirstOrdering_walk = [].
 Proof. vm_compute. split; reflexivity. Qed.
 
+(* the producer: derived context, then the walks; it closes the output channel when it returns
+   and signals its completion -- through a WaitGroup (Add before, Done deferred) or through a
+   second channel it closes (channel operations appear in the flattened fingerprint as "<-" and
+   "send") *)
+Definition completion_by_waitgroup : bool :=
+  subseqb [".Add"; ".walk"] (ncalls flat_calls_NewChildFirstOrdering)
+  && (1 <=? count_of ".Done" (ncalls flat_calls_NewChildFirstOrdering))%nat
+  && existsb (Z.eqb 1) flat_ints_NewChildFirstOrdering
+  && existsb (String.eqb ".Wait") (ncalls flat_calls_ChildFirstOrdering_Close).
+Definition completion_by_channel : bool :=
+  (2 <=? count_of "close" (ncalls flat_calls_NewChildFirstOrdering))%nat
+  && existsb (String.eqb "<-") (ncalls flat_calls_ChildFirstOrdering_Close).
+
 Lemma gen_producer_skeleton :
-  subseqb [".WithCancel"; ".Add"; ".walk"] (ncalls flat_calls_NewChildFirstOrdering) = true /\
-  (1 <=? count_of ".Done" (ncalls flat_calls_NewChildFirstOrdering))%nat = true /\
+  subseqb [".WithCancel"; ".walk"] (ncalls flat_calls_NewChildFirstOrdering) = true /\
   (1 <=? count_of "close" (ncalls flat_calls_NewChildFirstOrdering))%nat = true /\
-  existsb (Z.eqb 1) flat_ints_NewChildFirstOrdering = true.
+  completion_by_waitgroup || completion_by_channel = true.
 Proof. vm_compute. repeat split; reflexivity. Qed.
 
 Lemma gen_next_skeleton :
@@ -82,8 +94,11 @@ Proof. vm_compute. split; reflexivity. Qed.
 
 Lemma gen_err_close_skeleton :
   subseqb [".Err"] (ncalls flat_calls_ChildFirstOrdering_Err) = true /\
+  (* Close: first a call (the cancel function, whatever its field is called), then it waits for the
+     producer: WaitGroup.Wait or a receive from the completion channel *)
   match ncalls flat_calls_ChildFirstOrdering_Close with
-  | c :: rest => negb (String.eqb c ".Wait") && existsb (String.eqb ".Wait") rest
+  | c :: rest => negb (String.eqb c ".Wait") && negb (String.eqb c "<-")
+                 && existsb (fun x => String.eqb x ".Wait" || String.eqb x "<-") rest
   | [] => false
   end = true.
 Proof. vm_compute. split; reflexivity. Qed.
